@@ -14,7 +14,7 @@ import (
 
 func init() {
 	suites["route"] = suite{
-		rule: "episodes on a real clusterClient over scripted nodes, single-command paths: topology (1-4 shards, replicas, holes, CLUSTER SLOTS v7 / CLUSTER SHARDS v8, plain / SendToReplicas modes, MaxMovedRedirections 0-3, retry budget 0-2, seed outside the topology), table/rslots/conns dumps after every refresh, Do/DoCache with redirect chains up to depth 4 (MOVED/ASK to known, unknown and the same node, TRYAGAIN/LOADING/CLUSTERDOWN/transport/ERR/nil), key-less commands, unowned slots (ErrNoSlot after a refresh), topology change + refresh; '!route' lines compare the real _pick of boundary/random slots with the specification's owner computed from the topology description, '!trace' lines judge the observed per-node logs; non-trivial = op with at least one consumed injection or a table dump",
+		rule: "episodes on a real clusterClient over scripted nodes, single-command paths: topology (1-4 shards, replicas, holes, CLUSTER SLOTS v7 / CLUSTER SHARDS v8, plain / SendToReplicas modes, MaxMovedRedirections 0-3, retry budget 0-2, seed outside the topology), table/rslots/conns dumps after every refresh, Do/DoCache with redirect chains up to depth 4 (MOVED/ASK to known, unknown and the same node, TRYAGAIN/LOADING/CLUSTERDOWN/transport/ERR/nil), key-less commands, unowned slots (ErrNoSlot after a refresh), topology change + refresh, DoMulti/DoMultiCache batches whose commands on one source node are answered MOVED→X and ASK→X in the same round (also next to a MULTI…EXEC block); '!route' lines compare the real _pick of boundary/random slots with the specification's owner computed from the topology description, '!trace' lines judge the observed per-node logs; non-trivial = op with at least one consumed injection or a table dump",
 		run:  runRoute,
 		replay: func(c *Ctx, lines []string) {
 			runEpisodeLines(c, lines)
@@ -472,6 +472,39 @@ func (e *episode) oracle(specs []cmdSpec, results []string, raw string) {
 			}
 			open = -1
 		}
+	}
+	// stable witness: a command whose final reply is the raw ASK error although redirects are unbounded —
+	// the ASK re-send was dropped (doretry / doretrycache must send cAskings even when the same entry has commands)
+	if e.opt["maxredir"] == "0" {
+		firstMulti := len(specs)
+		for i, sp := range specs {
+			if sp.flags == "M" && i < firstMulti {
+				firstMulti = i
+			}
+		}
+		askPre := "e:" + hx("ASK 1 ")
+		e.s.mu.Lock()
+		for i, sp := range specs {
+			if i >= firstMulti || i >= len(results) || !strings.HasPrefix(results[i], askPre) {
+				continue
+			}
+			target := results[i][len(askPre):]
+			src := ""
+			for _, ev := range e.s.events {
+				if ev.id == sp.id {
+					src = ev.addr
+				}
+			}
+			key := "cluster:ask-dropped"
+			for _, ev := range e.s.events {
+				if ev.id != sp.id && ev.addr == src && ev.reply == "e:"+hx("MOVED 1 ")+target {
+					key = "cluster:ask-dropped:mixed-moved-ask-same-node"
+				}
+			}
+			e.fails = append(e.fails, [3]string{key, strings.Join(cs, " "),
+				fmt.Sprintf("command %d was answered ASK by %s and never sent on with ASKING: the caller got the ASK error as its final reply", sp.id, src)})
+		}
+		e.s.mu.Unlock()
 	}
 	maxRedir := e.opt["maxredir"]
 	e.emit(fmt.Sprintf("!trace maxredir=%s %s ; %s ; %s ; %s", maxRedir, strings.Join(cs, " "), strings.Join(results, " "), raw, strings.Join(evs, " ")), "ok", false)
@@ -943,11 +976,144 @@ func genHoleFill(c *Ctx) []string {
 	return lines
 }
 
+// genMixedRedirect: one batch whose commands sit on (different) slots of ONE source node and are answered, in the
+// same round, MOVED→X by some and ASK→X by others (X one node, known or new), optionally next to a MULTI…EXEC
+// block, optionally through DoMultiCache. Both lists of X's retry entry are non-empty in the next round.
+func genMixedRedirect(c *Ctx) []string {
+	ver := 7 + c.Rng.IntN(2)
+	var t genTopo
+	for {
+		t = genClusterTopo(c, false)
+		if len(t.ds) >= 2 {
+			break
+		}
+	}
+	si := c.Rng.IntN(len(t.ds))
+	src := nodeAddrOf(t.ds[si].nodes[0])
+	var target string
+	for {
+		target = t.addrs[c.Rng.IntN(len(t.addrs))]
+		if c.Rng.IntN(6) == 0 {
+			target = "10.0.9.1:7000"
+		}
+		if target != src {
+			break
+		}
+	}
+	maxRedir := []int{0, 0, 0, 3}[c.Rng.IntN(4)]
+	lines := []string{
+		fmt.Sprintf("reset ver=%d tls=0 mode=plain maxredir=%d retry=1 budget=%d init=%s", ver, maxRedir, c.Rng.IntN(2), hx(src)),
+		"serve " + t.msg(ver, true).String(),
+		"new",
+	}
+	slotOf := func() int {
+		r := t.ds[si].ranges[c.Rng.IntN(len(t.ds[si].ranges))]
+		return int(r[0] + int64(c.Rng.IntN(int(r[1]-r[0]+1))))
+	}
+	var specs []cmdSpec
+	var is []inj
+	verb := "multi"
+	switch c.Rng.IntN(5) {
+	case 0: // with a transaction block: one slot throughout
+		slot := slotOf()
+		shape := []string{"p", "M", "m", "m", "E", "p"}
+		if c.Rng.IntN(2) == 0 {
+			shape = []string{"p", "p", "M", "m", "E"}
+		}
+		var outside, members []int
+		for i, sh := range shape {
+			switch sh {
+			case "M":
+				specs = append(specs, cmdSpec{i, 16384, "M"})
+			case "E":
+				specs = append(specs, cmdSpec{i, 16384, "E"})
+			case "m":
+				specs = append(specs, cmdSpec{i, slot, "-"})
+				members = append(members, i)
+			default:
+				specs = append(specs, cmdSpec{i, slot, "-"})
+				outside = append(outside, i)
+			}
+		}
+		// one outside command and one member get the two kinds (either way round); a second outside one may join
+		kinds := []string{"mv", "ask"}
+		if c.Rng.IntN(2) == 0 {
+			kinds = []string{"ask", "mv"}
+		}
+		is = append(is, inj{addr: src, id: outside[0], kind: kinds[0], arg: target})
+		is = append(is, inj{addr: src, id: members[c.Rng.IntN(len(members))], kind: kinds[1], arg: target})
+		if len(outside) > 1 && c.Rng.IntN(2) == 0 {
+			is = append(is, inj{addr: src, id: outside[1], kind: kinds[c.Rng.IntN(2)], arg: target})
+		}
+	default:
+		n := 2 + c.Rng.IntN(5)
+		cache := c.Rng.IntN(4) == 0
+		if cache {
+			verb = "mcache"
+		}
+		for i := 0; i < n; i++ {
+			fl := []string{"-", "t", "r"}[c.Rng.IntN(3)]
+			if cache {
+				fl = "r"
+			}
+			specs = append(specs, cmdSpec{i, slotOf(), fl})
+		}
+		if c.Rng.IntN(3) == 0 { // one command elsewhere, untouched
+			oi := (si + 1) % len(t.ds)
+			r := t.ds[oi].ranges[0]
+			specs[c.Rng.IntN(n)].slot = int(r[0])
+		}
+		// at least one MOVED and one ASK to the target among the commands that start at the source
+		var atSrc []int
+		for i, sp := range specs {
+			if t.ownerOf(sp.slot) == src {
+				atSrc = append(atSrc, i)
+			}
+		}
+		for len(atSrc) < 2 {
+			i := c.Rng.IntN(n)
+			specs[i].slot = slotOf()
+			atSrc = atSrc[:0]
+			for j, sp := range specs {
+				if t.ownerOf(sp.slot) == src {
+					atSrc = append(atSrc, j)
+				}
+			}
+		}
+		c.Rng.Shuffle(len(atSrc), func(i, j int) { atSrc[i], atSrc[j] = atSrc[j], atSrc[i] })
+		is = append(is, inj{addr: src, id: atSrc[0], kind: "mv", arg: target}, inj{addr: src, id: atSrc[1], kind: "ask", arg: target})
+		for _, i := range atSrc[2:] {
+			switch c.Rng.IntN(4) {
+			case 0:
+				is = append(is, inj{addr: src, id: i, kind: "mv", arg: target})
+			case 1:
+				is = append(is, inj{addr: src, id: i, kind: "ask", arg: target})
+			}
+		}
+		if c.Rng.IntN(3) == 0 { // the target sends one of them on once more
+			v := atSrc[c.Rng.IntN(2)]
+			is = append(is, inj{addr: target, id: v, kind: []string{"mv", "ask", "try"}[c.Rng.IntN(3)], arg: src})
+		}
+	}
+	ss := make([]string, len(specs))
+	for i, sp := range specs {
+		ss[i] = sp.String()
+	}
+	lines = append(lines, fmt.Sprintf("%s %s ; %s", verb, strings.Join(ss, " "), joinInj(is)), "table")
+	for i := range lines {
+		lines[i] = strings.TrimSpace(lines[i])
+	}
+	return lines
+}
+
 func runCluster(c *Ctx) {
 	for i := 0; i < c.N; i++ {
 		runEpisodeLines(c, genEpisode(c, i, "batch"))
 		if i%6 == 0 {
 			runEpisodeLines(c, genHoleFill(c))
+		}
+		if i%5 == 0 {
+			runEpisodeLines(c, genMixedRedirect(c))
 		}
 	}
 }
@@ -978,6 +1144,9 @@ func genSF(c *Ctx) []string {
 func runRoute(c *Ctx) {
 	for i := 0; i < c.N; i++ {
 		runEpisodeLines(c, genEpisode(c, i, "route"))
+		if i%5 == 0 { // redirects inside a batch round: MOVED and ASK naming one node in the same round
+			runEpisodeLines(c, genMixedRedirect(c))
+		}
 		if i%12 == 0 {
 			runEpisodeLines(c, genHoleFill(c))
 		}
